@@ -16,7 +16,7 @@ def run(ctx):
         e = dict(env, VERIF_QUIET="1")
         ctx.note("logging configuration: " + mode)
         summ = life.replay(ctx, "life-func" if (q and mode in ("trace",)) else "life", behs, env=e)
-        if mode != "off" and not summ.get("debug_steps"):
+        if mode != "off" and not summ.get("debug_steps") and not ctx.violations:
             from lib import vlib
             raise vlib.Broken("logging configuration %s: debug logging was never open during the replay (vacuous)" % mode)
         ctx.cov.setdefault("debug_steps", {})[mode] = summ.get("debug_steps", 0)
@@ -42,7 +42,7 @@ def run(ctx):
             summ = replay_family(ctx, name, b2, env=dict(dbg, **env), classify=c06.classify)
         else:
             summ = replay_family(ctx, name, b2, env=dict(dbg, **env), batch=4000)
-        if not summ.get("debug_steps"):
+        if not summ.get("debug_steps") and not ctx.violations:
             from lib import vlib
             raise vlib.Broken("family %s: debug logging was never open during the replay (vacuous)" % name)
     for sig in ("f1", "v1", "mv"):
